@@ -170,7 +170,12 @@ def canon(n: ast.AST) -> ast.AST:
 _IGNORED_STR_CALLS = ("warn", "warning", "error", "info", "debug")
 
 
-_CTX = {"count": 0}
+_CTX = {"count": 0, "strict_names": True}
+
+
+def _is_new(name: str) -> bool:
+    import re
+    return re.match(r"_n\d+_", name) is not None
 
 
 def _diff(a, b, names: dict, rnames: dict, out: list, in_msg=False) -> bool:
@@ -248,6 +253,13 @@ def _diff(a, b, names: dict, rnames: dict, out: list, in_msg=False) -> bool:
         # the renaming is a *function* from the repository's names to the rule's role names: one name of
         # the repository cannot play two roles of the rule, but two names may share a role (a refactoring
         # that splits a re-bound variable into two)
+        # local names are canonical (sa/names.py): a local of the repository that corresponds to a local of the tree the
+        # rule was written on carries that name, so it must BE the expected name; only locals without counterpart
+        # (`_n<k>_...`) and comprehension / lambda variables (scoped below) are matched up to a consistent renaming
+        scoped = a.id in _CTX.get("scoped", ()) or b.id in _CTX.get("scoped_b", ())
+        if a.id != b.id and not scoped and not _is_new(a.id) and not b.id.startswith("_") and _CTX.get("strict_names"):
+            out.append(("name-in-count" if _CTX["count"] else "name", a.id, b.id))
+            return True
         if names.get(a.id, b.id) != b.id:
             # parallel arrays have the same length: another name inside len(.) / .shape is no evidence of a difference
             out.append(("name-in-count" if _CTX["count"] else "name", a.id, b.id))
@@ -280,6 +292,8 @@ def _diff(a, b, names: dict, rnames: dict, out: list, in_msg=False) -> bool:
         n2 = {k: v for k, v in names.items() if k not in ta and v not in tb}
         r2 = {k: v for k, v in rnames.items() if k not in tb and v not in ta}
         a._scoped = True
+        sc_a, sc_b = _CTX.get("scoped", frozenset()), _CTX.get("scoped_b", frozenset())
+        _CTX["scoped"], _CTX["scoped_b"] = frozenset(sc_a | ta), frozenset(sc_b | tb)
         try:
             # generators first (they bind), then the element
             ok = True
@@ -308,6 +322,18 @@ def _diff(a, b, names: dict, rnames: dict, out: list, in_msg=False) -> bool:
             return ok
         finally:
             a._scoped = False
+            _CTX["scoped"], _CTX["scoped_b"] = sc_a, sc_b
+    if isinstance(a, ast.Lambda) and isinstance(b, ast.Lambda) and not getattr(a, "_lscoped", False):
+        pa = {x.arg for x in a.args.posonlyargs + a.args.args + a.args.kwonlyargs}
+        pb = {x.arg for x in b.args.posonlyargs + b.args.args + b.args.kwonlyargs}
+        sc_a, sc_b = _CTX.get("scoped", frozenset()), _CTX.get("scoped_b", frozenset())
+        _CTX["scoped"], _CTX["scoped_b"] = frozenset(sc_a | pa), frozenset(sc_b | pb)
+        a._lscoped = True
+        try:
+            return _diff(a, b, names, rnames, out, in_msg)
+        finally:
+            a._lscoped = False
+            _CTX["scoped"], _CTX["scoped_b"] = sc_a, sc_b
     msg = in_msg
     if isinstance(a, ast.Raise):
         msg = True
@@ -394,6 +420,40 @@ def _diff(a, b, names: dict, rnames: dict, out: list, in_msg=False) -> bool:
     return True
 
 
+def _collapse_swaps(out: list) -> list:
+    """two name differences that are one exchange (`x` where `y`, `y` where `x`) are ONE difference"""
+    res, used = [], set()
+    for i, (k, a, b) in enumerate(out):
+        if i in used:
+            continue
+        if k == "name":
+            j = next((j for j in range(i + 1, len(out)) if j not in used and out[j][0] == "name" and out[j][1] == b and out[j][2] == a), None)
+            if j is not None:
+                used.add(j)
+                res.append(("names", f"{a}, {b} exchanged", f"{b}, {a}"))
+                continue
+        res.append((k, a, b))
+    return res
+
+
+def _same_binding(a, b) -> bool:
+    """both are plain assignments binding the same simple name(s): the bound name identifies the statement however small it is"""
+    if isinstance(a, ast.Assign) and isinstance(b, ast.Assign):
+        ta = [t.id for t in a.targets if isinstance(t, ast.Name)]
+        tb = [t.id for t in b.targets if isinstance(t, ast.Name)]
+        return bool(ta) and ta == tb and len(ta) == len(a.targets) == len(b.targets)
+    return False
+
+
+def _target_mismatch(stmt, diffs) -> int:
+    tg = set()
+    if isinstance(stmt, ast.Assign):
+        tg = {t.id for t in stmt.targets if isinstance(t, ast.Name)}
+    elif isinstance(stmt, (ast.AugAssign, ast.AnnAssign)) and isinstance(stmt.target, ast.Name):
+        tg = {stmt.target.id}
+    return 1 if any(k == "name" and a in tg for k, a, _ in diffs) else 0
+
+
 def _literal_index(e) -> bool:
     """an index / slice / tuple of them written with integer literals only (`0`, `-1`, `1:`, `:-1`, `::2`, `..., 0`)"""
     if isinstance(e, ast.Constant):
@@ -428,6 +488,7 @@ def compare(actual: Union[ast.AST, str, None], expected: Union[ast.AST, str], fi
         rnames.setdefault(g, g)
     if not _diff(a, b, names, rnames, out):
         return OTHER, []
+    out = _collapse_swaps(out)
     if any(k == "name-in-count" for k, _, _ in out):
         return OTHER, []
     return (SAME if not out else LEAF), out
@@ -461,7 +522,7 @@ def find(stmts: Iterable[ast.AST], accepted: Iterable[Union[str, ast.AST]], fixe
             if v == SAME:
                 return SAME, n, []
             if v == LEAF and isinstance(n, ast.stmt) and len(d) <= 2 and len(d) * 3 <= leaves(n) \
-                    and (cand is None or len(d) < len(cand[1])):
+                    and (cand is None or (_target_mismatch(n, d), len(d)) < (_target_mismatch(cand[0], cand[1]), len(cand[1]))):
                 cand = (n, d)  # close enough to be *the* statement the rule is about
     if cand is not None:
         return LEAF, cand[0], cand[1]
@@ -587,6 +648,7 @@ def find_group(stmts: Iterable[ast.AST], expected: list, fixed_names: Iterable[s
     # the rule's own temporaries (`c = tree.node(node1)` among the expected statements) may have been written out in
     # the repository, and the repository's temporaries may be written out in the rule: both sides also in inlined form
     etemps = _temps([x for a in alts for x in a[:1] if isinstance(x, ast.stmt)])
+    n_raw = [len(a) for a in alts]
     for a in alts:
         for x in list(a):
             y = inlined(x, etemps)
@@ -603,13 +665,30 @@ def find_group(stmts: Iterable[ast.AST], expected: list, fixed_names: Iterable[s
     for n, cn in list(canon_nodes):
         for part in _split_tuple_assign(cn):
             canon_nodes.append((n, part))
+    raw_of = {}
+    for n, cn in canon_nodes:
+        raw_of.setdefault(id(n), cn)  # the first form of a node is the one as written
+
+    def raw_leaf(n, i):
+        """as written, the statement has the expected skeleton and says something else: reading through temporaries (which
+        makes two different variables with the same defining expression equal) must not turn that into `same`"""
+        cn = raw_of.get(id(n))
+        if cn is None:
+            return False
+        a = cn.value if isinstance(cn, ast.Expr) else cn
+        for b in alts[i][:n_raw[i]]:
+            nm, rn, out = dict(names), dict(rnames), []
+            if _diff(a, b, nm, rn, out) and out:
+                return True
+        return False
+
     for i in order:
         best_c = None
         for n, cn in canon_nodes:
             for b in alts[i]:
                 nm, rn, out = dict(names), dict(rnames), []
                 a = cn.value if isinstance(cn, ast.Expr) else cn
-                if _diff(a, b, nm, rn, out) and not out:
+                if _diff(a, b, nm, rn, out) and not out and not ((cn is not raw_of.get(id(n)) or b not in alts[i][:n_raw[i]]) and raw_leaf(n, i)):
                     # several statements may fit one form under some renaming (`r /= norm(r)` and
                     # `u /= norm(u)`): prefer the candidate that renames the fewest names
                     cost = sum(1 for k, v in nm.items() if k != v and k not in names)
@@ -630,10 +709,14 @@ def find_group(stmts: Iterable[ast.AST], expected: list, fixed_names: Iterable[s
             for b in alts[i]:
                 nm, rn, out = dict(names), dict(rnames), []
                 a = cn.value if isinstance(cn, ast.Expr) else cn
-                if _diff(a, b, nm, rn, out) and out and len(out) <= 2 and len(out) * 3 <= leaves(n) \
+                ok_ = _diff(a, b, nm, rn, out)
+                out = _collapse_swaps(out)
+                if ok_ and out and len(out) <= 2 and (len(out) * 3 <= leaves(n) or _same_binding(a, b)) \
                         and not any(k == "name-in-count" for k, _, _ in out):
-                    if cand is None or len(out) < len(cand[1]):
-                        cand = (n, out)
+                    # an assignment is identified by what it binds: a candidate that binds another name is the worst guess
+                    cost = (_target_mismatch(a, out), len(out))
+                    if cand is None or cost < cand[2]:
+                        cand = (n, out, cost)
         results[i] = (LEAF, cand[0], cand[1]) if cand is not None else (OTHER, None, [])
     # an expected `a, b = x, y` written as two statements in the repository
     for i in range(len(expected)):
